@@ -522,6 +522,22 @@ def determinism_groups(rng, quick):
                     prior.insert(0, ["stream_decoder", dict(flags=0), b"\xfd7zXZ\x00\x00".hex()])
                 runs.append(dict(args=dict(threads=rng.randint(1, 4), timeout=rng.choice((0, 100))), plan=rng.choice(plans), prior=prior))
             G.append(dict(entry="stream_encoder_mt", cls="group:mt:%d:%d" % (di, ci), args=args, data=d, runs=runs))
+    # Deterministic (not sampled) history pairs for the threaded encoder: a handle used with a BIGGER block size, then
+    # re-initialised with a smaller one, against a fresh handle - for block sizes on both sides of every place where the
+    # reserved Block Header size can change (the Compressed/Uncompressed Size placeholders are VLIs: 2^7, 2^14, 2^21, for
+    # the block size itself and for its output bound), with filter chains whose Filter Flags have different sizes.
+    edge_sizes = [100, 127, 128, 200, 16000, 16200, 16300, 16383, 16384, 20000, 2096900, 2097100, 2097151, 2097152, 2100000]
+    hchains = [None, chains[3], chains[2]]
+    for hi, ch in enumerate(hchains):
+        for bs in edge_sizes:
+            args = dict(block_size=bs, preset=0, check=1, threads=2)
+            if ch is not None:
+                args["filters"] = ch
+            prior_bs = max(1 << 15, 4 * bs)
+            runs = [dict(args={}, plan=plans[0]),
+                    dict(args={}, plan=plans[0], prior=[["stream_encoder_mt", dict(args, block_size=prior_bs), hist_data.hex()]]),
+                    dict(args=dict(threads=1), plan=plans[2], prior=[["stream_encoder_mt", dict(args, block_size=prior_bs * 2, threads=3), hist_data[:20000].hex()]])]
+            G.append(dict(entry="stream_encoder_mt", cls="group:mt:history:%d:%d" % (hi, bs), args=args, data=d1[:9000], runs=runs))
     # single-threaded encoders: slicings x structure/text form
     for entry, args in (("stream_encoder", dict(filters=chains[2], check=1)), ("raw_encoder", dict(filters=chains[2])),
                         ("raw_encoder", dict(filters=[["arm64", dict(start_offset=16)], ["lzma2", dict(preset=0, dict_size=4096, nice_len=273, depth=7)]])),
